@@ -396,7 +396,7 @@ PROPS['C14'] = dict(
     rule='case = (table of 1-4 dims, order 0-5 in the convolved dimension, any dimension index, irregular knots, kernel of 2-6 increasing knots, symmetric or not, 0.05x-5x the knot spacing) x 10-60 points; '
          'distinct_nontrivial counts distinct (table, kernel, point) triples with M>0',
     assumptions=ASSUME_COMMON,
-    require={'any': {'points-checked': 1500, 'C-wrapper-comparisons': 100, 'order:0': 5, 'order:5': 5, 'concurrent-convolution-rounds': 150, 'axis-unit:1e-09': 20, 'aliasing-kernel-comparisons': 40, 'hist:judged-convolutions': 200, 'runs-compared-with-the-clean-heap-run': 1000}},
+    require={'any': {'points-checked': 1500, 'C-wrapper-comparisons': 100, 'order:0': 5, 'order:5': 5, 'concurrent-convolution-rounds': 150, 'axis-unit:1e-09': 20, 'aliasing-kernel-comparisons': 40, 'hist:judged-convolutions': 200, 'runs-compared-with-the-clean-heap-run': 1000, 'tables-with-geometrically-graded-knots-in-the-convolved-dimension': 60}},
 )
 PROPS['C15'] = dict(
     level_text='Exhaustive over all 153 permutations of 1-5 dimensions (plus sampled 6-d ones) on tables whose axes have pairwise different lengths, orders, extents and periods: every per-dimension attribute, '
@@ -428,7 +428,7 @@ PROPS['C17'] = dict(
     level='exploration',
     rule='case = (sparse table of 1-4 dims with mixed orders 0-4 and repeated knots, grid) ; every grid point strictly inside the knot range is judged; distinct_nontrivial counts distinct (table, grid point) pairs judged',
     assumptions=ASSUME_COMMON,
-    require={'any': {'grid-points-checked': 3000, 'grid-points-unlisted': 100, 'tables-with-zero-edge-hyperplanes': 50, 'C-wrapper-comparisons': 200, 'concurrent-grideval-rounds': 150, 'long-grids': 5, 'tables-with-all-coefficients-zero': 30, 'hist:judged-grid-evaluations': 300, 'runs-compared-with-the-clean-heap-run': 1000}},
+    require={'any': {'grid-points-checked': 3000, 'grid-points-unlisted': 100, 'tables-with-zero-edge-hyperplanes': 50, 'C-wrapper-comparisons': 200, 'concurrent-grideval-rounds': 150, 'long-grids': 5, 'tables-with-all-coefficients-zero': 30, 'hist:judged-grid-evaluations': 300, 'runs-compared-with-the-clean-heap-run': 1000, 'axis-unit:1.60218e-19': 20}},
 )
 
 
@@ -444,7 +444,7 @@ PROPS['C16'] = dict(
     level='exploration',
     rule='case = one history of 5-40 operations on one table; distinct_nontrivial counts distinct histories (hash of the (operation, key) sequence)',
     assumptions=ASSUME_COMMON,
-    require={'any': {'writes-accepted': 800, 'writes-rejected': 500, 'ops:roundtrip': 800, 'ops:remove': 300, 'ops:read': 500}},
+    require={'any': {'writes-accepted': 800, 'writes-rejected': 500, 'ops:roundtrip': 800, 'ops:remove': 300, 'ops:read': 500, 'keys-spelled-in-another-case-than-a-present-key': 200}},
 )
 
 
@@ -460,7 +460,7 @@ PROPS['C18'] = dict(
     level='exploration',
     rule='case = one call sequence; distinct_nontrivial counts distinct sequences (hash of the (call kind, handle) sequence)',
     assumptions=ASSUME_COMMON,
-    require={'any': {'calls:readsplinefitstable': 300, 'calls:splinetable_glamfit': 200, 'calls:splinetable_convolve': 50, 'calls:evaluation': 100, 'calls:on-null-data-handle': 50, 'calls:splinetable_free': 100}},
+    require={'any': {'calls:readsplinefitstable': 300, 'calls:splinetable_glamfit': 200, 'calls:splinetable_convolve': 50, 'calls:evaluation': 100, 'calls:on-null-data-handle': 50, 'calls:splinetable_free': 100, 'get_key:results-re-examined-after-fetching-other-keys': 10}},
 )
 
 
